@@ -817,8 +817,11 @@ async fn interpret(case: &Case, d: &mut Driver, out: &mut Outcome) -> R<()> {
                     // I5: empty services are only dropped when they really have no instances.
                     // Several messages of one op never mix RemoveService with writes, so `prev` is current.
                     let had = had_instances.unwrap_or(false);
+                    // (timed cases: the actor's own timer may have emptied the service since `prev`,
+                    // so only the direction a tick cannot cause is judged there)
                     if !own {
                         match (&err, had) {
+                            (None, true) if case.timed => {}
                             (None, true) => return Err(format!("{}: RemoveService succeeded although the service had {} instances", what, prev.svcs[*svc].insts.len())),
                             (Some(e), false) => return Err(format!("{}: RemoveService of a service without instances failed: {}", what, e)),
                             _ => {}
